@@ -179,6 +179,21 @@ impl TypedProp for C07 {
     }
     fn judge(&self, case: &GCase) -> Verdict {
         let files: std::collections::HashMap<String, String> = case.files.iter().cloned().collect();
+        // physically consistent histories only (the shrinker may drop a release)
+        {
+            let mut down: std::collections::BTreeSet<u16> = Default::default();
+            for e in &case.events {
+                let ok = match e {
+                    Ev::Press(k) => down.insert(*k),
+                    Ev::Release(k) => down.remove(k),
+                    Ev::Repeat(k) => down.contains(k),
+                    _ => true,
+                };
+                if !ok {
+                    return Verdict::discard("inconsistent-history");
+                }
+            }
+        }
         let tl = timeline(&case.events);
         let tail = case.settle_hint.min(2_500) + 300;
         let mut sim_a = match Sim::new_with_files(&case.cfg, files.clone()) {
